@@ -135,7 +135,7 @@ func roundHelper(f float64, mode int, args []any) float64 {
 			return f
 		}
 		p := math.Pow10(int(prec))
-		return float64(int(f*p)) / p
+		return math.Trunc(f*p) / p
 	case ceil:
 		return math.Ceil(f)
 	case ceilPrec:
